@@ -1,4 +1,4 @@
-/* C05: JSON::parse on TEMPLATED documents, second set (h_tmpl.c is the first): a concrete skeleton with symbolic holes of one
+/* C05: JSON::parse on TEMPLATED documents, third set: CONTAINERS (h_tmpl.c is the first set, h_doc.c the second, scalar one): a concrete skeleton with symbolic holes of one
  * lexical class each; the parser mode (STRICT) and the entry point are concrete cells. The document is held in a buffer of
  * EXACTLY its length, so any read past the end is a CBMC pointer-check failure (ASan natively).
  *
@@ -58,6 +58,8 @@ static double dbl(uint64_t bits) { double d; memcpy(&d, &bits, 8); return d; }
 #define DOCUMENTED(r) (((r) >= 0 && (r) <= 6) || (r) == -20 || (r) == -1)
 #define NOEL (-30)
 
+/* Templates defined below but NOT queried by spec.py (measured at or beyond the budget, NOTES.md "path-wise" section): 304, 311, 314, 332,
+ * 341-343, 350-352, 360, the prefix cells 600-603 and the concrete probes 910-914. */
 /* ---- skeleton table ---- (holes stand inside a token, not at the first byte of a value, except where noted: see NOTES.md) */
 #if TPL == 300
 #define SK "[1" D ",2" D "]"
